@@ -736,3 +736,92 @@ def do_compile_rule(ctx):
             ctx.violation(c, "; ".join(problems) + f" | emitted: {sources[-1]!r}", fn)
         else:
             ctx.ok(c, fn, emitted=sources[-1])
+
+
+# --------------------------------------------------------------------------- nested registered calls, registration
+@rule("C11.nested-registry", props=["C11"], min_instances=3, mutants=[
+    ("nested call emits its arguments reversed", ("operator_dict", "            expr = f\"{func.__name__}({', '.join(mv.expr for mv in mvs)})\"", "            expr = f\"{func.__name__}({', '.join(mv.expr for mv in reversed(mvs))})\"")),
+    ("nested call records the input keys", ("operator_dict", "            return TapeRecorder(self.algebra, keys=keys_out, expr=expr)", "            return TapeRecorder(self.algebra, keys=keys_in[0], expr=expr)")),
+    ("symbolic=True registers a non-symbolic registry", ("algebra", "            if not symbolic:\n                self.registry[expr] = Registry(name, codegen=expr, algebra=self)", "            if True:\n                self.registry[expr] = Registry(name, codegen=expr, algebra=self)")),
+])
+def nested_registry(ctx):
+    """A registered function called inside another one is recorded as a by-name call of the function of the cache
+    entry for the recorders' key tuples, arguments in order; Algebra.register builds a Registry (or an
+    OperatorDict for symbolic=True) for the given function under its own name."""
+    from ..absint import PyFunc
+    repo = ctx.repo
+    q = "operator_dict.Registry.__call__"
+    fn = ctx.func(q)
+    looked = []
+    func = Obj("function", {"__name__": "inner_7_x_2_5", "fmt": "<fn>"})
+
+    def getitem(key):
+        looked.append(tuple(k.attrs.get("fmt") if isinstance(k, Obj) else k for k in key))
+        return (Obj("token", {"fmt": "KEYS_OUT"}), func)
+    alg = Obj("algebra", {"wrapper": None, "numspace": {}})
+    me = Obj("Registry", {"algebra": alg, "name": "inner"}, getitem=getitem)
+
+    def rec(expr, kname):
+        k = Obj("token", {"fmt": kname})
+        return Obj("TapeRecorder", {"algebra": alg, "expr": expr, "_keys": k}, {"keys": lambda: k})
+    it = make_interp(repo)
+    it.instance_classes["Registry"] = "operator_dict.Registry"
+    created = {}
+    prev = it.class_call_hook
+
+    def cch(name, args, kwargs):
+        if name == "TapeRecorder":
+            vals = dict(zip(["algebra", "expr", "keys"], args))
+            vals.update(kwargs)
+            created.update(vals)
+            return Obj("TapeRecorder", {"algebra": vals.get("algebra"), "expr": vals.get("expr"), "_keys": vals.get("keys")})
+        return prev(name, args, kwargs)
+    it.class_call_hook = cch
+    try:
+        out = it.run(q, [me, rec("EXPR_A", "KEYS_A"), rec("EXPR_B", "KEYS_B")])
+    except NoValue as exc:
+        raise Unknown(q, str(exc), fn)
+    problems = []
+    if looked != [("KEYS_A", "KEYS_B")]:
+        problems.append(f"cache lookups {looked}, expected one with (KEYS_A, KEYS_B)")
+    if not isinstance(created.get("expr"), str) or created["expr"].replace(" ", "") != "inner_7_x_2_5(EXPR_A,EXPR_B)":
+        problems.append(f"recorded expression {created.get('expr')!r}, expected 'inner_7_x_2_5(EXPR_A, EXPR_B)'")
+    if not (isinstance(created.get("keys"), Obj) and created["keys"].attrs.get("fmt") == "KEYS_OUT"):
+        problems.append("recorded keys are not the keys_out of that cache entry")
+    if problems:
+        ctx.violation(q + "#recorders", "; ".join(problems), fn)
+    else:
+        ctx.ok(q + "#recorders", fn, emitted=created["expr"])
+    # Algebra.register
+    q = "algebra.Algebra.register"
+    fn = ctx.func(q)
+    for symbolic in (False, True):
+        c = f"{q}#symbolic={symbolic}"
+        made = {}
+
+        def cch2(name, args, kwargs, made=made):
+            if name in ("Registry", "OperatorDict"):
+                made.update(kind=name, args=args, kwargs=kwargs)
+                return Obj(name)
+            return NotImplemented
+        it = make_interp(repo)
+        it.class_call_hook = cch2
+        algebra = Obj("algebra", {"registry": {}})
+        user = Obj("function", {"__name__": "myexpr", "fmt": "<myexpr>"})
+        try:
+            dec = it.run(q, [algebra], {"symbolic": symbolic})
+            if dec[0] == "return" and not (isinstance(dec[1], Obj) and dec[1].kind in ("Registry", "OperatorDict")):
+                res = it.call(dec[1], [user], {})
+            else:
+                res = dec[1]
+        except NoValue as exc:
+            raise Unknown(c, str(exc), fn)
+        want_kind = "OperatorDict" if symbolic else "Registry"
+        ok = made.get("kind") == want_kind and made.get("kwargs", {}).get("codegen") is user and made["kwargs"].get("algebra") is algebra \
+            and (list(made.get("args", [])) + [made["kwargs"].get("name")])[0] == "myexpr" and algebra.attrs["registry"].get(user) is res
+        if ok:
+            ctx.ok(c, fn, kind=want_kind)
+        else:
+            ctx.violation(c, f"register(symbolic={symbolic}) builds {made.get('kind')} with {made.get('args')} "
+                             f"{ {k: str(v) for k, v in made.get('kwargs', {}).items()} }; expected a {want_kind} named 'myexpr' for the "
+                             f"given function and this algebra, stored in and returned from the registry", fn)
